@@ -393,3 +393,39 @@ func boundedBy(fn *ssa.Function, v ssa.Value, ref VP, builtin string, want Rel) 
 	}, map[*ssa.Phi]bool{})
 	return all && n > 0
 }
+
+func init() {
+	register(&Rule{ID: "ITER.mut", Min: 3, Text: "no structural mutation during iteration: a callback handed to an iteration method of the change store's B-tree (Ascend, AscendGreaterOrEqual, AscendRange, Descend…) never calls a mutating method of a B-tree (Delete, ReplaceOrInsert, DeleteMin/Max, Clear) — the tree iterates by index, a delete inside the callback shifts the node and the next item is skipped; items to delete are collected first and deleted after the walk",
+		Run: func(x *Ctx) {
+			mutating := map[string]bool{"Delete": true, "ReplaceOrInsert": true, "DeleteMin": true, "DeleteMax": true, "Clear": true}
+			isBtree := func(o *types.Func) bool {
+				return o != nil && o.Pkg() != nil && strings.Contains(o.Pkg().Path(), "btree")
+			}
+			n := 0
+			for _, fn := range x.P.ProdFuncs() {
+				k := 0
+				for _, c := range prog.CallsIn(fn) {
+					o := prog.CallObj(c)
+					if !isBtree(o) || !(strings.HasPrefix(o.Name(), "Ascend") || strings.HasPrefix(o.Name(), "Descend")) {
+						continue
+					}
+					n++
+					k++
+					bad := ""
+					for _, cl := range closureArgs(c) {
+						for g := range x.closureOf([]*ssa.Function{cl}, []string{strings.TrimPrefix(prog.PkgOf(fn), prog.Mod+"/")}) {
+							for _, d := range prog.CallsIn(g) {
+								if od := prog.CallObj(d); isBtree(od) && mutating[od.Name()] {
+									bad = od.Name() + " at " + x.pos(d)
+								}
+							}
+						}
+					}
+					x.check(bad == "", fmt.Sprintf("func=%s walk=%s#%d callback-does-not-mutate", prog.FnName(fn), o.Name(), k), x.pos(c), "the callback only reads", "the iteration callback calls "+bad+": the walk skips the item that follows each deleted one")
+				}
+			}
+			if n < 3 {
+				x.C.Vacuous(x.id()+" tree walks", n, 3)
+			}
+		}})
+}
